@@ -22,6 +22,7 @@ import Driver.Replay
 import Driver.EventLog
 import Driver.Lifecycle
 import Driver.HandlerStatus
+import Driver.EventSerial
 
 def main (args : List String) : IO UInt32 := do
   let stdin ← IO.getStdin
@@ -49,4 +50,5 @@ def main (args : List String) : IO UInt32 := do
   | ["eventlog"] => Drv.loop stdin Drv.EventLog.step {}; return 0
   | ["lifecycle"] => Drv.loop stdin Drv.Lifecycle.step {}; return 0
   | ["handlerstatus"] => Drv.loop stdin Drv.HandlerStatus.step {}; return 0
+  | ["eventserial"] => Drv.loop stdin Drv.EventSerial.step {}; return 0
   | _ => IO.eprintln "usage: wfdriver <model>"; return 2
